@@ -489,7 +489,7 @@ def run(repo, res, tier):
     from . import c11
     from vlib import rules_skips as SK, tables, rules_pairing as RPAIR
     RPAIR.pairing_rule(repo, res, only={"check::traverse_nonterminal_dependencies_dfs", "check::get_nonterminals_resolution_order", "check::do_check_subword_spaces", "dfa::DFA::do_check_ambiguity_best_effort"})
-    n = SK.skips_rule(repo, res, tables.load("skips")["row"], exclude=set(SK.CORES) | SK.printers(repo))  # the validators; the algorithmic cores belong to C02 / C03
+    n = SK.skips_rule(repo, res, tables.load("skips")["row"], exclude=set(SK.CORES))  # the validators; the algorithmic cores belong to C02 / C03
     res.floor("SKIPS", n, 36)
     c11.dom_get_specializations(repo, res)  # unknown-shell / non-command / duplicate checks precede the target-shell filter
     common.run_traversals(repo, res, only={"check::do_check_subword_spaces", "check::do_get_nonterm_refs", "check::expr_get_head", "check::expr_get_tail"}, rp=False)
